@@ -91,6 +91,8 @@ type Span struct {
 type Rendered struct {
 	Text  string
 	Spans []Span
+	// Files holds the include files produced by extraction (project-relative path -> content); the root is Text.
+	Files map[string]string
 }
 
 type renderer struct {
@@ -103,6 +105,9 @@ type renderer struct {
 	depth        int
 	lastPaste    string
 	lastPasteKey string
+	dir          string // directory (project-relative, with trailing slash) of the file being rendered
+	baseLevel    int
+	noInclude    int // >0 inside explicit parentheses: INCLUDE runs are only cut from implicitly nested children
 	// afterText is true when the previous thing was free text (description): no comment/blank may follow directly
 	afterText bool
 }
@@ -195,7 +200,7 @@ func (rd *renderer) annot(a string) string {
 
 // directive writes "<indent><keyword> <params><annotation>" and returns the keyword offset.
 func (rd *renderer) directive(level int, keyword string, params []string, annotation string) int {
-	if keyword != "PASTE" {
+	if keyword != "PASTE" && keyword != "INCLUDE" {
 		rd.lastPaste = ""
 	}
 	rd.filler(level)
@@ -406,11 +411,13 @@ func (rd *renderer) withChildren(level int, has bool, f func()) {
 	paren := rd.st != nil && rd.st.chance(rd.st.Parens)
 	if paren {
 		rd.open(level)
+		rd.noInclude++
 	}
 	rd.lastPaste = ""
 	f()
 	rd.lastPaste = ""
 	if paren {
+		rd.noInclude--
 		rd.close(level)
 	}
 }
@@ -435,6 +442,7 @@ func parentLabel(label string) string {
 // macroSet collects the macro bodies produced by paste extraction.
 type macroSet struct {
 	n     int
+	files []string // produced include files (project-relative paths), in creation order
 	order []string
 	bufs  map[string]*renderer
 }
@@ -442,31 +450,61 @@ type macroSet struct {
 // elem renders one element (a directive with everything below it). With a paste hook the element may be moved
 // into a macro: a PASTE is written in its place (once per run of consecutive elements going to the same macro).
 func (rd *renderer) elem(label, kind string, level int, f func(r *renderer, level int)) {
-	if rd.paste != nil && macroAdmits(kind) {
-		if rd.paste(label, kind, rd.depth) != "" {
-			// one macro per run of consecutive extracted elements
-			name := rd.lastPaste
-			key := fmt.Sprintf("%d|%s", level, parentLabel(label))
-			if name != "" && rd.lastPasteKey != key {
-				name = "" // a run never crosses into another parent
-			}
-			rd.lastPasteKey = key
-			if name == "" {
-				rd.macros.n++
-				name = fmt.Sprintf("@mac%d", rd.macros.n)
-				rd.macros.bufs[name] = &renderer{st: rd.st, paste: rd.paste, macros: rd.macros, depth: rd.depth + 1}
-				rd.macros.order = append(rd.macros.order, name)
-				rd.directive(level, "PASTE", []string{name}, "")
-				rd.lastPaste = name
-			}
-			mb := rd.macros.bufs[name]
-			f(mb, 1)
-			mb.lastPaste = ""
-			return
-		}
+	mode := ""
+	if rd.paste != nil {
+		mode = rd.paste(label, kind, rd.depth)
 	}
-	rd.lastPaste = ""
-	f(rd, level)
+	if mode == "include" && rd.noInclude > 0 {
+		mode = ""
+	}
+	if mode != "" && mode != "include" && !macroAdmits(kind) {
+		mode = ""
+	}
+	if mode == "" {
+		rd.lastPaste = ""
+		f(rd, level)
+		return
+	}
+	// one macro / one file per run of consecutive extracted sibling elements
+	name := rd.lastPaste
+	key := fmt.Sprintf("%d|%s|%s", level, parentLabel(label), mode)
+	if name != "" && rd.lastPasteKey != key {
+		name = "" // a run never crosses into another parent
+	}
+	rd.lastPasteKey = key
+	if name == "" {
+		rd.macros.n++
+		sub := &renderer{st: rd.st, paste: rd.paste, macros: rd.macros, depth: rd.depth + 1}
+		if mode == "include" {
+			// the included file lives in (a sub-directory of) the directory of the including file
+			rel := fmt.Sprintf("inc%d.jst", rd.macros.n)
+			if rd.macros.n%3 == 0 {
+				rel = fmt.Sprintf("d%d/inc%d.jst", rd.macros.n, rd.macros.n)
+			}
+			name = rd.dir + rel
+			sub.dir = rd.dir
+			if i := strings.LastIndex(rel, "/"); i >= 0 {
+				sub.dir = rd.dir + rel[:i+1]
+			}
+			rd.macros.bufs[name] = sub
+			rd.macros.files = append(rd.macros.files, name)
+			rd.directive(level, "INCLUDE", []string{rd.param(rel)}, "")
+			sub.baseLevel = 0
+		} else {
+			name = fmt.Sprintf("@mac%d", rd.macros.n)
+			rd.macros.bufs[name] = sub
+			rd.macros.order = append(rd.macros.order, name)
+			rd.directive(level, "PASTE", []string{name}, "")
+		}
+		rd.lastPaste = name
+	}
+	mb := rd.macros.bufs[name]
+	if mode == "include" {
+		f(mb, 0)
+	} else {
+		f(mb, 1)
+	}
+	mb.lastPaste = ""
 }
 
 func (rd *renderer) bodyHost(level int, label, keyword string, annotation string, headers *SNode, b Body, depth int) {
@@ -804,10 +842,17 @@ func RenderWith(m *Model, o RenderOpts) *Rendered {
 			spans[i].FullEnd += len(head)
 		}
 	}
+	files := map[string]string{}
+	for _, fn := range rd.macros.files {
+		files[fn] = rd.macros.bufs[fn].sb.String()
+	}
 	if o.Style != nil && o.Style.Newline != "" && o.Style.Newline != "\n" {
 		text = strings.ReplaceAll(text, "\n", o.Style.Newline)
+		for k, v := range files {
+			files[k] = strings.ReplaceAll(v, "\n", o.Style.Newline)
+		}
 	}
-	return &Rendered{Text: text, Spans: spans}
+	return &Rendered{Text: text, Spans: spans, Files: files}
 }
 
 // Render turns the model into text. With a nil style the canonical form is produced.
